@@ -522,14 +522,10 @@ Definition node_matches (s : state) (p : rpath) (o : onode) : bool :=
 Definition ino_of (s : state) (p : rpath) : option nat :=
   match node_at s p with Some (NFile i) => Some i | _ => None end.
 
-(* two observed regular files share an inode iff the model says so *)
-Definition classes_agree (s : state) (rP : rpath) (fin : list (list string * onode)) : bool :=
-  forallb (fun e1 => forallb (fun e2 =>
-    match snd e1, snd e2 with
-    | OFile a _ _, OFile b _ _ =>
-        Bool.eqb (Nat.eqb a b) (eqb (ino_of s (rev (fst e1) ++ rP)) (ino_of s (rev (fst e2) ++ rP)))
-    | _, _ => true
-    end) fin) fin.
+(* two observed regular files share an inode iff the model says so; [fin] holds absolute reversed paths *)
+Definition classes_agree (s : state) (fin : list (rpath * onode)) : bool :=
+  let fl := flat_map (fun e => match snd e with OFile a _ _ => [(a, ino_of s (fst e))] | _ => [] end) fin in
+  forallb (fun x => forallb (fun y => Bool.eqb (Nat.eqb (fst x) (fst y)) (eqb (snd x) (snd y))) fl) fl.
 
 Definition lib_agrees (s0 : state) (R : rpath) (ms : list member) (lib : list lverdict) : bool :=
   (List.length ms =? List.length lib)%nat &&
@@ -549,8 +545,9 @@ Definition check_case (c : case) : bool :=
   match o with
   | OFuel => o_outside_same c
   | _ =>
+      let fin := map (fun e => (rev (fst e) ++ rP, snd e)) (o_final c) in
       outcome_eqb o (o_outcome c)
-      && forallb (fun e => node_matches s' (rev (fst e) ++ rP) (snd e)) (o_final c)
+      && forallb (fun e => node_matches s' (fst e) (snd e)) fin
       && (List.length (nodes s') =? List.length (c_P c) + List.length (o_final c))%nat
-      && classes_agree s' rP (o_final c)
+      && classes_agree s' fin
   end.
